@@ -47,7 +47,9 @@ contract("CircuitCompositeOperation.copy", params=dict(self=CCO, relation_transf
              f"exists({NEWG}, lambda m: m.operation is dict_get(relation_transfer_lookup, n.operation)))",
              # (consequence used by repeat: the copy's operations occur in no graph that existed before)
              f"forall({NEWG}, lambda m: forall_obj(CircuitGraphBranch, lambda g: fresh(g) or "
-             "forall(g.get_node_iterator(), lambda n: n.operation is not m.operation)))"],
+             "forall(g.get_node_iterator(), lambda n: n.operation is not m.operation)))",
+             # ... and neither does the copy itself
+             "forall_obj(CircuitGraphBranch, lambda g: fresh(g) or forall(g.get_node_iterator(), lambda n: n.operation is not result))"],
          loops={"0:kinds": {"relation_transfer_lookup": DICT(OP, OP)},
                 0: [f"seq_is(_xs, old({NODES}))",
                     "typeis(result, CircuitCompositeOperation)", "fresh(result)", "fresh(result._circuit_graph)",
